@@ -12,13 +12,23 @@ evaluations succeed (about a fifth of the histories leave one identifier unbound
 with a failed evaluation).  After every step the value is compared with what a fresh Expression object gives for that
 context and those constants, and with the independent tree evaluator.  The first two steps of every history are also
 sent to the model's `expr` command (a None context is sent as the empty one).
+
+Constants defined through the parser (kinds "defconst-table" / "defconst-random", harness/v9_c10.py, own PRNG stream): "identifiers
+resolve ... then in the constants" for constants that come out of LOADED TEXT.  `#define NAME body` with every C literal spelling
+(decimal, 0x / 0X, leading-zero octal, 0b / 0B; all 23 u / l suffix spellings; negated, complemented, parenthesised - an exhaustive
+form x suffix x wrapper table) and with random expressions over literals, sizeof and earlier constants; the constants are then observed
+through cs.NAME, Expression(cs, 'NAME * 2 + 1') and random usage trees (contexts None / {} / unrelated / shadowing), array dimensions
+of structures (size and parse), enum / flag member values (named and anonymous), later #defines and `sizeof(T)`; loaded through
+load() in one text / one call per definition / split texts, loadfile(), the legacy parser (restricted domain), LF / CRLF, comments and
+blanks after the body, compiled / interpreted, packed / aligned, either endianness.  Every value is compared with the C value computed
+in the harness, with what the evaluator gives the same text on a cstruct whose constants were set through the API, and with the model.
 """
 from __future__ import annotations
 
 import itertools
 import random
 
-from .. import common
+from .. import common, v9_c10
 from ..common import A, Case, Result, mkrng, parse_sexp, run_driver, sx
 
 BIN = {
@@ -409,6 +419,13 @@ def run(env) -> Result:
                 "Expression.evaluate twice (second time with another context) vs a fresh object vs the Lean model. (history) one Expression "
                 "object evaluated 2-5 (thorough: 2-8) times with contexts None / {} / shadowing some or all identifiers / repeated, and "
                 "constants redefined, defined or undefined between the evaluations; every step vs a fresh object and vs the tree value. "
+                "(defconst, harness/v9_c10.py) constants defined by loaded text: `#define NAME body` for every literal form x all 23 u/l suffix "
+                "spellings x 12 sign / complement / parenthesis wrappers (table) and random expression bodies over literals, sizeof and earlier "
+                "constants, plus structures with array dimensions over the constants, named / anonymous enums and flags with member values over "
+                "them and usage expressions (NAME * 2 + 1, random trees; context None / {} / unrelated / shadowing); entry points load() whole / "
+                "per definition / split, loadfile(), legacy parser (restricted), LF / CRLF, trailing comments, compiled x align x endianness; "
+                "each constant, expression value, structure size + parse and enum member vs the C value computed in the harness, vs the "
+                "evaluator on a cstruct with API-set constants, and vs the Lean model's evaluator. "
                 "distinct = by rendered text + bindings; non-trivial = at least one operator")
     real = Real()
     findings = env["findings"]
@@ -501,6 +518,8 @@ def run(env) -> Result:
                     res.disagreements.append(Case("corr", f"model gives {m1},{m2},{mtoks}; implementation gives {r1},{r2},{toks}", data))
         if meta["kind"] in ("random", "malformed"):
             res.sample({"text": text, "context": ctx1, "constants": consts, "result": list(r1)}, 6)
+    # constants defined through the definition parser and everything that resolves them afterwards (harness/v9_c10.py)
+    v9_c10.run(env, res, mkrng(env["seed"], "c10:v9-defconst"))
     # a disagreement is first of all a lead for the failing-input search: re-examine each against the property oracle
     # (already done above for tree cases); malformed cases have no prescribed value, they stay correspondence-only.
     return res
@@ -575,8 +594,10 @@ def check_history(real, res, meta, ans, findings):
 
 
 def replay(body) -> int:
-    real = Real()
     c = body["case"]
+    if c.get("kind") == "defconst":
+        return v9_c10.replay(body)
+    real = Real()
     if c.get("kind") == "history":
         steps = [{"ctx": h["context"], "consts": h["constants"]} for h in c["history"]]
         for k, (st, (got, fresh)) in enumerate(zip(steps, run_history(real, c["text"], steps))):
